@@ -181,6 +181,21 @@ def _run(ctx, quick, pool):
     ctx.notes["solver_configurations_covered"] = f"{len(covered_cfg)}/{ncfg}"
     ctx.notes["max_interpolation_error_ulp"] = round(max_ulp, 3)
     ctx.notes["recorded_traces_validated_by_tlc"] = len(traces)
+    # ---- the grid for ALL T and dt: LoopGrid.tla (which SolverLoop refines, PROPERTY GridRefinement above) is
+    # proved by TLAPS; a loop without the clip must make an obligation fail (non-vacuity)
+    if not quick:
+        from harness import tlaps
+        pr = tlaps.run("LoopGrid", timeout=600)
+        ctx.notes["tlaps_loop_grid"] = pr.summary()
+        if not pr.ok:
+            raise loop.tlc.TLCMachineryError(f"LoopGrid: {pr.failed}/{pr.obligations} obligations failed\n{pr.output[-1500:]}")
+        src = open(os.path.join(loop.tlc.SPEC_DIR, "LoopGrid.tla")).read()
+        assert "t' = Min(t + D, T)" in src
+        prm = tlaps.run("LoopGrid", extra_modules={"LoopGrid": src.replace("t' = Min(t + D, T)", "t' = t + D")}, timeout=600)
+        ctx.notes["tlaps_loop_grid_without_clip"] = prm.summary()
+        if prm.failed == 0:
+            raise loop.tlc.TLCMachineryError("LoopGrid without the clipped last step was proved: the proof is vacuous")
+
     # ---- traces harvested from the repository's own test-suite (DESIGN 4.2 (ii)): every integrate call of the
     # selected tests - forward solves and the backward segments of sdeint_adjoint - validated by TraceLoop
     from harness import harvest_run
